@@ -92,9 +92,16 @@ class SchedSession(Session):
         # TOC without the retry loop that reader() has, and racing *that*
         # against a commit is outside the properties (they speak of readers,
         # searchers and writers of an index, not of constructing the handle)
+        shared_ix = None
         for a in actors:
             if getattr(a, "ix", None) is None:
-                a.ix = self.actor_storage().open_index()
+                if getattr(self, "share_ix", False) and not (a.own_process and self.storage_kind != "ram"):
+                    # threads of one process may share one Index object (docs: "stateless, share-able between threads")
+                    if shared_ix is None:
+                        shared_ix = self.actor_storage().open_index()
+                    a.ix = shared_ix
+                else:
+                    a.ix = self.actor_storage().open_index()
         for a in actors:
             if a.own_process and self.storage_kind != "ram":
                 proc = self.k.new_proc(a.name)
